@@ -6,6 +6,7 @@ of the family and every state.  Counterexamples are replayed: the member is
 instantiated (constants substituted), solved by the real solver and by the
 independent Zielonka solver of `vlib.xplay`.
 """
+import os
 import itertools
 import time
 
@@ -18,7 +19,7 @@ FUNCS = ['gr1.solve_streett_game', 'gr1._attractor_under_assumptions', 'fixpoint
          'fixpoint.trap', 'prime.prime', 'fol.Context.let/exist/forall',
          'temporal.Automaton.declare_variables/declare_constants/prime_varlists']
 MODES = list(itertools.product([True, False], repeat=2))
-SOLVER_MS = 900000
+SOLVER_MS = 900000 * int(os.environ.get('VERIF_Z3_SCALE', '1'))
 
 
 def concrete_member(aut, values):
@@ -309,14 +310,14 @@ def run(tier, seed, t0, only=None, objective='streett', pid=PID):
                 tasks.append(dict(mod='vlib.props.c01', fn='family_region',
                                   kw=dict(shape=shape, moore=moore, plus_one=plus_one, objective=objective,
                                           state_idx=None if part is None else [part]),
-                                  backend=be, timeout=6000,
+                                  backend=be, timeout=12000,
                                   name=f'{be}:{objective}:{shape}:moore={moore}:plus_one={plus_one}'
                                        + ('' if part is None else f':state{part}')))
     for shape in (['S11'] if tier == 'quick' else ['S11', 'S11h2', 'B11a']):
         for moore, plus_one in MODES:
             tasks.append(dict(mod='vlib.props.c01', fn='family_region',
                               kw=dict(shape=shape, moore=moore, plus_one=plus_one, objective=objective, resolve=True),
-                              timeout=6000, name=f'cudd:{objective}:{shape}:re-solve:moore={moore}:plus_one={plus_one}'))
+                              timeout=12000, name=f'cudd:{objective}:{shape}:re-solve:moore={moore}:plus_one={plus_one}'))
     nmem = 48 if tier == 'quick' else 600
     for shape in ('S11g2', 'S11g3', 'S11g2h2', 'B11a', 'T11b'):
         for moore, plus_one in MODES:
